@@ -145,6 +145,34 @@ def big_domains(ctx):
             ctx.violation("Domain differs from DomainAlgebra.tla (product laws, sizes beyond 2^63): " + "; ".join(bad[:3]), info, {"kind": "domain"})
 
 
+def narrow_dtypes(ctx):
+    """Frames whose columns are stored in narrow integer types (uint8 / int8 / int16) over a domain with more than 256 cells:
+    a cell index computed in the column's own dtype wraps around."""
+    import random
+    rng = random.Random(ctx.seed + 5)
+    dom = Domain(["a", "b"], [20, 20])
+    recs = [[rng.randrange(20), rng.randrange(20)] for _ in range(60)] + [[19, 19], [13, 0], [12, 16], [0, 19]]
+    want = np.zeros((20, 20))
+    for a_, b_ in recs:
+        want[a_, b_] += 1
+    for dt in ("uint8", "int8", "int16", "uint16", "int32", "int64"):
+        info = {"dtype": dt, "domain": {"a": 20, "b": 20}, "records": len(recs)}
+        ctx.case(("narrow", dt), nontrivial=True)
+        try:
+            df = pd.DataFrame(recs, columns=["a", "b"]).astype(dt)
+            ds = Dataset(df, dom)
+            bad = []
+            if not np.array_equal(np.asarray(ds.datavector(flatten=False)), want): bad.append("datavector(flatten=False) differs from the contingency table")
+            if not np.array_equal(np.asarray(ds.datavector()), want.reshape(-1)): bad.append("datavector() differs from the contingency table")
+            if not np.array_equal(np.asarray(ds.project(["b", "a"]).datavector(flatten=False)), want.T): bad.append("project(['b','a']) differs from the transposed table")
+            if not np.array_equal(np.asarray(ds.project(("b",)).datavector()), want.sum(axis=0)): bad.append("project(('b',)) differs from the marginal")
+        except Exception as ex:
+            ctx.violation("Dataset operation raised %r" % ex, info, {"kind": "crash"})
+            continue
+        if bad:
+            ctx.violation("Dataset differs from Contingency.tla (frame stored as %s): " % dt + "; ".join(bad), info, {"kind": "data"})
+
+
 def run(ctx, canary=False):
     thorough = ctx.tier == "thorough"
     ctx.rule = ("TLC enumerates every pair of domains over {a:2,b:3,c:1,d:2} (all attribute orders) x argument sequences and "
@@ -163,6 +191,7 @@ def run(ctx, canary=False):
     if r.emits:
         ctx.sample({"domain case": r.emits[len(r.emits) // 2]})
     big_domains(ctx)
+    narrow_dtypes(ctx)
     for domseq, maxrecs in ((["b", "a", "c"], 4 if thorough else 3), (["a", "d"], 4 if thorough else 3)):
         mc = "---- MODULE MC_Data2 ----\nEXTENDS Contingency\nMCSz == %s\nMCW == {<<2, 3, 5>>, <<1, 0, 4>>}\nMCDom == %s\n====\n" % (
             to_tla(SZ), to_tla(domseq))
